@@ -401,6 +401,11 @@ def execute(history):
                         out.log.add("obs%d:%s" % (i, q), rm[1][q])
                 if rm[0] == "ok" and rr[0] == "ok":
                     bad, mx = compare.compare_obs(rm[1], rr[1], tol)
+                    if bad and history.get("header", {}).get("lanczos"):
+                        # Lanczos regime: a carried root and the from-scratch model's own root are two approximations of one
+                        # inverse (a Krylov space built from one random probe vector need not exhaust a small, clustered data
+                        # set): covariances are compared at 5e-2, the mean (an exact CG solve on both sides) at 1e-3
+                        bad = [(q, dd, sc) for q, dd, sc in bad if q.startswith("mean") or not dd <= 5e-2 * sc]
                     if not bad:
                         out.note_diff("tol=%g" % tol, mx)
                     else:
